@@ -11,7 +11,8 @@
 (* with the documented forms of the parts                                   *)
 (*   rx   = [form |-> "float", v]  | [form |-> "reaction", r, p]            *)
 (*          (r, p: sequences of <<stoichiometric number, energy>>)          *)
-(*   part = [form |-> "default" | "float" | "species", v]                   *)
+(*   part = [form |-> "default" | "float" | "species", v]   ("numspecies":   *)
+(*          the species a number became after a JSON round trip)           *)
 (*                                                                         *)
 (* Required relation (docstring of LSR):                                    *)
 (*   E = a * dE(rx) + b + E(surf) + E(gas),  dE(float v) = v,               *)
@@ -69,6 +70,13 @@ Required(o) ==
    IF o.kind = "lsr" THEN RAdd(Term(o.a, o.rx, o.surf, o.gas), o.b)
    ELSE RAdd(RSum([i \in 1..N(o) |-> Term(o.as[i], o.rxs[i], o.surfs[i], o.gass[i])]), o.b)
 
+\* the share of Required(o) that comes from parts given as numbers (what the as-found table route scales)
+\* (a reaction given as a Reaction has v = 0; a reloaded number keeps its value in v / in the form "numspecies")
+IsNum(s) == s.form \in {"float", "numspecies"}
+NumTerm(a, rx, s, g) == RAdd(RMul(a, rx.v), RAdd(IF IsNum(s) THEN s.v ELSE Zr, IF IsNum(g) THEN g.v ELSE Zr))
+NumPart(o) == IF o.kind = "lsr" THEN NumTerm(o.a, o.rx, o.surf, o.gas)
+              ELSE RSum([i \in 1..N(o) |-> NumTerm(o.as[i], o.rxs[i], o.surfs[i], o.gass[i])])
+
 \* ---- the implementation-shaped evaluation
 Kb == <<23, 1>>                                               \* eV -> kcal/mol on the way back (R table)
 Kf == IF Variant = "tabledrift" THEN RFrac(10001, 230000) ELSE RFrac(1, 23)
@@ -76,7 +84,7 @@ Rk == RFrac(1, 500)                                           \* toy R in kcal/m
 ThroughSpecies(v) == RMul(RMul(v, Kf), Kb)                    \* what the helper species reports
 ImplDeltaE(rx) == IF rx.form = "float" THEN RSub(ThroughSpecies(rx.v), Zr)
                   ELSE RSub(SideSum(rx.p), SideSum(rx.r))
-ImplPartE(s) == IF s.form = "species" THEN s.v ELSE ThroughSpecies(PartE(s))
+ImplPartE(s) == IF s.form \in {"species", "numspecies"} THEN s.v ELSE ThroughSpecies(PartE(s))
 ImplTerm(a, rx, s, g) == RAdd(RMul(a, ImplDeltaE(rx)), RAdd(ImplPartE(s), ImplPartE(g)))
 OverRT(x, t) == RDiv(RDiv(x, Rk), R(t))
 ImplUoRT(o, t) ==
@@ -90,8 +98,12 @@ Evaluate(o, t) ==
     U |-> RMul(RMul(u, R(t)), Rk), G |-> RMul(RMul(g, R(t)), Rk)]
 
 \* ---- JSON round trip: floats come back as the species / reaction they were turned into
-ReloadPart(s) == IF s.form = "species" THEN s ELSE Part("species", ThroughSpecies(PartE(s)))
-ReloadRx(rx) == IF rx.form = "float" THEN Reaction(<<<<R(1), Zr>>>>, <<<<R(1), ThroughSpecies(rx.v)>>>>) ELSE rx
+ReloadPart(s) == IF s.form \in {"species", "numspecies"} THEN s
+                 ELSE IF s.form = "default" THEN Part("species", ThroughSpecies(Zr))
+                 ELSE Part("numspecies", ThroughSpecies(s.v))
+ReloadRx(rx) == IF rx.form = "float"
+                THEN [Reaction(<<<<R(1), Zr>>>>, <<<<R(1), ThroughSpecies(rx.v)>>>>) EXCEPT !.v = ThroughSpecies(rx.v)]
+                ELSE rx
 Raised == [kind |-> "raised"]
 EncodeRaises(o) ==
    \/ Variant = "unnamed" /\ (IF o.kind = "lsr" THEN o.rx.form = "float"
@@ -124,13 +136,15 @@ Objs == (IF "lsr" \in Kinds THEN LsrObjs ELSE {}) \cup ExtObjs
 \* ---- behaviours
 Rec(op, arg) == [op |-> op, arg |-> arg, kind |-> obj'.kind, T |-> T',
                  U |-> IF obj'.kind = "raised" THEN Zr ELSE res'.U,
+                 Unum |-> IF obj'.kind = "raised" THEN Zr ELSE NumPart(obj'),
                  ok |-> obj'.kind # "raised"]
 Live == obj.kind # "raised" /\ Len(h) <= MaxOps
 Settle == res' = IF obj'.kind = "raised" THEN res ELSE Evaluate(obj', T')
 
 Init == /\ obj \in Objs /\ T \in Temps
         /\ res = Evaluate(obj, T)
-        /\ h = <<[op |-> "construct", arg |-> obj, kind |-> obj.kind, T |-> T, U |-> res.U, ok |-> TRUE]>>
+        /\ h = <<[op |-> "construct", arg |-> obj, kind |-> obj.kind, T |-> T, U |-> res.U,
+               Unum |-> NumPart(obj), ok |-> TRUE]>>
 Eval(t) == /\ Live /\ t # T /\ T' = t /\ UNCHANGED obj /\ Settle /\ h' = Append(h, Rec("eval", t))
 SetSlope(a) == /\ Live /\ obj.kind = "lsr" /\ a # obj.a
                /\ obj' = [obj EXCEPT !.a = a] /\ UNCHANGED T /\ Settle /\ h' = Append(h, Rec("slope", a))
